@@ -201,15 +201,17 @@ void harness_visibility(void)
 	CHECK(dispatch(&P1, set) == 0, "C08.set_keeps_connection");
 	int routed = count_kind(&O, K_ROUTED);
 	struct sent *sr = last_of(&P1, K_RESPONSE);
+	int set_answered = sr != 0, set_refused = sr && sr->is_error;
 	reset_log();
 	CHECK(dispatch(&P1, get) >= 0, "C08.get_keeps_connection");
-	(void)get;
+	struct sent *gr = last_of(&P1, K_RESPONSE);
+	CHECK(gr && gr->has_result, "C08.get_answered");
 #if VISCASE == 0
 	CHECK(saw_add == 1, "C08.member_of_fetch_group_sees_element");
-	CHECK(routed == 1 && sr == 0, "C08.member_of_set_group_may_set");
+	CHECK(routed == 1 && !set_answered, "C08.member_of_set_group_may_set");
 #else
 	CHECK(saw_add == 0, "C08.non_member_never_sees_element");
-	CHECK(routed == 0 && sr && sr->is_error, "C08.non_member_may_not_set");
+	CHECK(routed == 0 && set_refused, "C08.non_member_may_not_set");
 #endif
 	WITNESS_END();
 }
